@@ -69,10 +69,39 @@ def param_spec(variant):
         n = int(variant[5:])
         return [(f'p{j}', (j + 1) * 0.25, NAMED_KINDS[j % 4])
                 for j in range(n)]
+    if variant.startswith('grp_'):
+        return group_spec(variant)
     return PARAMS[variant]
 
 
 NAMED_KINDS = ('kr', 'ir', 'tr', 'ar')
+
+# Array-valued parameters inside one control group (the library makes one
+# control unit per group ir / tr / ar / kr; a name's slot is the sum of the
+# widths before it).  'grp_<kind>_<pos>': three parameters <kind>_x, <kind>_y,
+# <kind>_z of that kind with an array first / in the middle / last and mixed
+# widths; 'grp_all': every group holds an array followed by a single value.
+GROUP_WIDTHS = {'first': (3, 1, 2), 'middle': (1, 3, 1), 'last': (1, 2, 3),
+                'all': (2, 3, 2)}
+GROUP_VARIANTS = [f'grp_{k}_{p}' for k in ('ir', 'tr', 'ar', 'kr')
+                  for p in ('first', 'middle', 'last', 'all')] + ['grp_all']
+
+
+def group_spec(variant):
+    if variant == 'grp_all':
+        return [('ia', (1.0, 2.0, 3.0), 'ir'), ('ib', 5.0, 'ir'),
+                ('tc', (6.0, 7.0), 'tr'), ('td', 8.0, 'tr'),
+                ('ae', (9.0, 10.0), 'ar'), ('af', 11.0, 'ar'),
+                ('kg', (12.0, 13.0), 'kr'), ('kh', 14.0, 'kr'),
+                ('gate', 1.0, 'kr')]
+    _, kind, pos = variant.split('_')
+    out = []
+    v = 0
+    for nm, w in zip('xyz', GROUP_WIDTHS[pos]):
+        vals = tuple((v + j + 1) * 0.25 for j in range(w))
+        v += w
+        out.append((f'{kind}_{nm}', vals if w > 1 else vals[0], kind))
+    return out
 
 
 PARAMS = {
